@@ -17,9 +17,11 @@ RULE = ("for every piece (bar plans with signature changes and empty bars x note
         "non-trivial = a partition with >=2 calls where a later chunk contains a note")
 ASSUMPTIONS = ["token lists and state dictionaries of different partitions need not be equal, only their detokenised meaning"]
 REQUIRED_FLAGS = ["signature_change", "empty_bar", "note_cut_by_bar_line", "side_track_shorter", "later_chunk_has_note",
-                  "all_partitions_explored", "two_track_piece_with_side_notes_explored", "running_values_off", "unfused_flags", "requantise_on", "requantise_off"]
+                  "all_partitions_explored", "two_track_piece_with_side_notes_explored", "running_values_off", "unfused_flags", "requantise_on", "requantise_off",
+                  "general_pause_of_many_bars"]
 
-SIG = {"44": (4, 4), "34": (3, 4), "38": (3, 8), "68": (6, 8), "58": (5, 8)}   # a 36-tick note fills a 3/8 bar exactly
+SIG = {"44": (4, 4), "34": (3, 4), "38": (3, 8), "68": (6, 8), "58": (5, 8),      # a 36-tick note fills a 3/8 bar exactly
+       "78": (7, 8), "98": (9, 8)}
 FL = list(itertools.product((True, False), repeat=4))
 
 
@@ -51,10 +53,26 @@ LONG_PLANS = [["44"] * 8, ["34", "34", "38", "38", "44", "58", "68", "34"]]
 
 
 def units(ctx):
-    return [(i, j) for i in range(len(plan_list(ctx["tier"]))) for j in range(4)] + [("long", k) for k in range(len(LONG_PLANS))]
+    return [(i, j) for i in range(len(plan_list(ctx["tier"]))) for j in range(4)] + [("long", k) for k in range(len(LONG_PLANS))] + \
+           [("pause", m, K) for m in ("44", "38", "58", "78", "98", "68") for K in (7, 8, 16, 24)]
 
 
 def gen_cases(unit, ctx):
+    if unit[0] == "pause":
+        # scale in time: three bars of music, a general pause of K bars that begins in the middle of a bar and ends with
+        # an upbeat (or on a bar line), two more bars; calls may end at 7 positions around the pause (all 128 groupings)
+        _, m, K = unit
+        bl, p = blen(SIG[m]), ctx["p"]
+        nb = 3 + K + 2
+        plan = [m] * nb
+        st = [bl * i for i in range(nb + 1)]
+        head = [[st[0], 12, p, 0, 10], [st[1] + 6, 6, p + 1, 0, 30], [st[2] + 6, 12, p, 0, 10]]
+        for resume in (st[3 + K] - 12, st[3 + K], st[3 + K] - bl + 6):
+            tail = [[resume, 12, p + 1, 0, 30], [st[3 + K] + 18, 6, p, 0, 10], [st[nb - 1] + 6, 12, p + 1, 0, 10]]
+            for side in (None, [[6, 12, p - 12, 0, 33], [resume + 6, 6, p - 12, 0, 33]]):
+                yield {"plan": plan, "notes": head + tail, "side": side, "q": bool(K % 2),
+                       "cuts": sorted({1, 2, 3, 3 + K // 2, 3 + K - 1, 3 + K, nb - 1})}
+        return
     if unit[0] == "long":
         # scale: eight bars, a note every 12 ticks, all 128 ways of grouping the bars into calls
         plan = LONG_PLANS[unit[1]]
@@ -157,6 +175,9 @@ def check_case(case, ctx):
             lines.append(base)
         truth.append((tuple(sorted(ns)), tuple(lines), base))
     n_states = n_trans = 0
+    allowed = (set(case["cuts"]) | {n}) if case.get("cuts") else set(range(1, n + 1))   # where a call may end
+    if n >= 10:
+        R.flags.append("general_pause_of_many_bars")
     for fl in ctx["flagsets"]:
         t = tok(nt, fl)
         if not fl[0]:
@@ -164,7 +185,7 @@ def check_case(case, ctx):
         if not any(fl[1:]):
             R.flags.append("unfused_flags")
         try:
-            ref = {k: meaning(t, t.tokenise(chunk(0, k))) for k in range(1, n + 1)}
+            ref = {k: meaning(t, t.tokenise(chunk(0, k))) for k in allowed}
         except TokenisationException:
             # a cut fragment whose length is no note value: the piece does not meet the tokeniser's input constraints
             R.flags.append("piece_outside_input_constraints")
@@ -185,6 +206,8 @@ def check_case(case, ctx):
             nxt = []
             for k, sd, toks, path in frontier:
                 for g in range(1, n - k + 1):
+                    if k + g not in allowed:
+                        continue
                     sd2 = dict(sd)
                     n_trans += 1
                     try:
